@@ -237,6 +237,8 @@ var c05Progs = []string{
 	"x == x", "x != x", "union(x, x)", "{f: x}.f == x", "if(c, x, y) == if(c, x, y)", "max(x, x)", "get(xs, i, x) == x",
 	// empty literals next to containers of other element types
 	"[[], [x]]", "[[x], []]", "if(c, [x], [])", "if(c, [], [x])", "[[:], [k: x]]", "get(xs, i, []) == []", "if(c, [[], [o]][1][0], x)",
+	// a polymorphic overload with a concrete container parameter next to a variable: an empty literal is not a list[num]
+	"t2([], x)", "t2([[]][0], x)", "t2(xs, x)", "t2([1], x)", "t2([x], y)", "t3([:], x)", "t3([\"k\": 1], x)",
 	"type", "let + 1", "[x][0].a", "{f: x}.f", "{f: x}.g", "get(mo, k, o)", "get(o, o)", "o + 1", "o.a", "o[0]", "len(o)", "o == o",
 }
 
@@ -279,6 +281,14 @@ func H05_step() {
 	for _, k := range perm {
 		ft := extras[k]
 		e.Register(val.Fun(ft, func(args ...*val.Val) *val.Val { return args[0] }))
+		r.funs = append(r.funs, ft)
+	}
+	vc := types.TyVar("c")
+	for _, ft := range []*types.Type{
+		types.Fun("t2", []*types.Type{types.List(types.Num), vc}, vc),
+		types.Fun("t3", []*types.Type{types.Map(types.Str, types.Num), vc}, vc),
+	} {
+		e.Register(val.Fun(ft, func(args ...*val.Val) *val.Val { return args[1] }))
 		r.funs = append(r.funs, ft)
 	}
 	fobj := types.Fun("f", []*types.Type{tx}, tx)
